@@ -23,7 +23,8 @@ Monitors (ctx.violation, written from the statement, lib/mon_c19.py) on the real
        OneToOne after every job (cross-checked with the extracted executable specification one_to_one_b, proved
        exact in C19_monitor_exact); an event on a child pull request / on a source or w/ tip leaves the same
        world as the event on the parent (twin run of the same history, bit-identical thanks to fixed dates);
-       decline and merge clauses.
+       decline and merge clauses; a DECLINED pull request stays clean however often its events (on itself, on its
+       declined children) are delivered again.
 """
 import ast
 import inspect
@@ -434,6 +435,13 @@ def check_job(world, ev, before, rec, after, model, out, jobinfo):
         if p is not None and not p['robot'] and p['state'] == 'DECLINED':
             viol += mon.decline_clause(pre, post, p, vtable)
             out['hist']['clause:decline'] = out['hist'].get('clause:decline', 0) + 1
+    # a declined pull request stays clean, however often its events are delivered
+    dp = mon.evaluated_declined_pr(pre, ev)
+    if dp is not None:
+        waits = any(c['pr'] == dp['id'] and c['cls'].startswith('user:') and 'wait' in c['cls']
+                    for c in before['comments'])
+        viol += mon.declined_stays_clean(pre, post, dp, status, waits)
+        out['hist']['clause:declined_evaluated'] = out['hist'].get('clause:declined_evaluated', 0) + 1
     # merge clause
     merged_now = [p for p in pre['prs'] if not p['robot'] and p['state'] == 'OPEN' and
                   any(q['id'] == p['id'] and q['state'] == 'MERGED' for q in post['prs'])]
@@ -587,7 +595,14 @@ def family_c19(seed, model, out):
                 do({'e': 'decline', 'pr': p['id']})
                 par, kid, _tip = pool(p)
                 do(rng.choice(par + kid) if rng.random() < 0.6 else rng.choice(par))
-                some_event(p)
+                # the same events again, two or three times: on the declined parent and on its (now declined)
+                # children - re-delivered webhooks, and the webhooks of the children that were just declined
+                again = [rng.choice(par)] + [rng.choice(par + kid) for _ in range(rng.choice([1, 2]))]
+                rng.shuffle(again)
+                for e2 in again:
+                    do(dict(e2))
+                if rng.random() < 0.4:
+                    some_event(p)
                 continue
             if not (cfg['always_prs'] or cfg['always_branches']):
                 open_gate(p, force=True)
